@@ -596,6 +596,189 @@ def run_wavelets(ctx):
                             ctx.violation('WaveletTransform', cfg, 'raises:' + type(e).__name__, message=str(e)[:200], wavelet=wn, pad_mode=pm, shape=shape)
 
 
+def run_grids(ctx):
+    """realspace_grid is documented as recovering the original grid from its reciprocal grid and the original minimum point.
+    A transformed axis with a single point has a reciprocal grid of one point, from which no stride can be recovered -
+    inadmissible here (counted).  Untransformed axes may have any length."""
+    from odl.trafos.util.ft_utils import reciprocal_grid, realspace_grid
+    rng = ctx.rng('grids')
+    for rep in range(ctx.reps(150, 600)):
+        nd = int(rng.integers(1, 4))
+        shape = tuple(int(v) for v in rng.integers(1, 9, size=nd))
+        mn = rng.uniform(-3, 3, size=nd) * rng.choice([1, 1e3, 1e-3])
+        ext = rng.uniform(0.5, 4, size=nd) * rng.choice([1, 1e-4, 1e3])
+        g = odl.uniform_grid(mn, mn + ext, shape)
+        k = int(rng.integers(1, nd + 1))
+        axes = sorted(int(a) for a in rng.choice(nd, size=k, replace=False))
+        order = 'sorted'
+        if k > 1 and rng.random() < 0.3:
+            axes = axes[::-1]
+            order = 'reversed'
+        if any(shape[a] == 1 for a in axes):
+            ctx.skip('single-point transformed axis: stride not recoverable')
+            continue
+        shift = [bool(b) for b in rng.integers(0, 2, size=k)]
+        hc = bool(rng.integers(0, 2))
+        par = 'even' if shape[axes[-1]] % 2 == 0 else 'odd'
+        spelling = 'list'
+        ax_arg = axes
+        if k == 1 and rng.random() < 0.4:
+            ax_arg, spelling = axes[0], 'int'
+        elif axes == list(range(nd)) and rng.random() < 0.5:
+            ax_arg, spelling = None, 'None'
+        cfg = '%dd;%d-axes;%s;%s;axes=%s;parity=%s' % (nd, k, order, 'hc' if hc else 'full', spelling, par)
+        ctx.case('grid-roundtrip;' + cfg, tuple(shift))
+        ctx.ev('grid-roundtrip')
+        try:
+            rg = reciprocal_grid(g, shift=shift, axes=ax_arg, halfcomplex=hc)
+            # shape contract of the reciprocal grid: the last transformed axis is halved for half-complex, the others kept
+            want_shape = list(shape)
+            if hc:
+                want_shape[axes[-1]] = shape[axes[-1]] // 2 + 1
+            if tuple(rg.shape) != tuple(want_shape):
+                ctx.violation('reciprocal_grid', cfg, 'shape', got=tuple(rg.shape), want=tuple(want_shape))
+                continue
+            for a in range(nd):
+                if a not in axes and not np.array_equal(rg.coord_vectors[a], g.coord_vectors[a]):
+                    ctx.violation('reciprocal_grid', cfg, 'untransformed-axis-changed', axis=a)
+            back = realspace_grid(rg, g.min_pt, axes=ax_arg, halfcomplex=hc, halfcx_parity=par)
+            ok = tuple(back.shape) == tuple(shape) and all(
+                np.allclose(a_, b_, rtol=1e-10, atol=1e-12 * max(np.abs(b_).max(), 1e-300)) for a_, b_ in zip(back.coord_vectors, g.coord_vectors))
+            if not ok:
+                ctx.violation('realspace_grid', cfg, 'roundtrip!=grid', shape=shape, axes=axes, shift=shift, back_shape=tuple(back.shape))
+            # parity spellings are case-insensitive as documented by the implementation's own normalisation
+            if hc:
+                other = 'odd' if par == 'even' else 'even'
+                b2 = realspace_grid(rg, g.min_pt, axes=ax_arg, halfcomplex=True, halfcx_parity=other)
+                want = 2 * rg.shape[axes[-1]] - (2 if other == 'even' else 1)
+                if b2.shape[axes[-1]] != want:
+                    ctx.violation('realspace_grid', cfg, 'parity-shape', got=b2.shape[axes[-1]], want=want)
+        except Exception as e:
+            ctx.violation('realspace_grid', cfg, 'raises:' + type(e).__name__, message=str(e)[:200], shape=shape, axes=axes)
+
+
+def run_prepost(ctx):
+    """The phase factors around the DFT, called directly with every documented option, against the formulas of their docstrings
+    evaluated from the grids themselves (not from index arithmetic): pre  p(x) = exp(-+i (x - x[0]) xi[0]),
+    post q(xi) = exp(-+i x[0] xi) * (s * phi_hat(xi s / 2 pi)) ** (+-1), phi_hat = sinc ** (1 nearest | 2 linear) / sqrt(2 pi)."""
+    from odl.trafos.util.ft_utils import reciprocal_grid, dft_preprocess_data, dft_postprocess_data
+    rng = ctx.rng('prepost')
+    for rep in range(ctx.reps(120, 500)):
+        nd = int(rng.integers(1, 4))
+        shape = tuple(int(v) for v in rng.integers(2, 8, size=nd))
+        mn = rng.uniform(-3, 3, size=nd)
+        ext = rng.uniform(0.5, 4, size=nd)
+        g = odl.uniform_grid(mn, mn + ext, shape)
+        k = int(rng.integers(1, nd + 1))
+        axes = sorted(int(a) for a in rng.choice(nd, size=k, replace=False))
+        shift = [bool(b) for b in rng.integers(0, 2, size=k)]
+        if rng.random() < 0.25:
+            shift = [True] * k
+        sign = '-+'[int(rng.integers(0, 2))]
+        sgn = -1.0 if sign == '-' else 1.0
+        dt = np.dtype(['float32', 'float64', 'complex64', 'complex128'][int(rng.integers(0, 4))])
+        cdt = np.result_type(dt, np.complex64)
+        tol = 2e-5 if dt.itemsize in (4, 8) and dt in (np.dtype('float32'), np.dtype('complex64')) else 1e-12
+        hc = bool(rng.integers(0, 2)) and dt.kind == 'f'
+        spelling = 'list'
+        ax_arg, sh_arg = axes, shift
+        if k == 1 and rng.random() < 0.4:
+            ax_arg, sh_arg, spelling = axes[0], shift[0], 'int'
+        elif k == nd and rng.random() < 0.5:
+            ax_arg, spelling = None, 'None'
+        rg = reciprocal_grid(g, shift=shift, axes=axes, halfcomplex=hc)
+
+        def bshape(ax, n):
+            sh = [1] * nd
+            sh[ax] = n
+            return sh
+        # ---- pre-processing
+        arr = rng.normal(size=shape).astype(dt) if dt.kind == 'f' else (rng.normal(size=shape) + 1j * rng.normal(size=shape)).astype(dt)
+        arr0 = arr.copy()
+        model = arr.astype(np.complex128)
+        for ax in axes:
+            x = g.coord_vectors[ax]
+            model = model * np.exp(sgn * 1j * (x - x[0]) * rg.coord_vectors[ax][0]).reshape(bshape(ax, shape[ax]))
+        all_shift = all(shift)
+        out_modes = ['none', 'separate-complex']
+        if dt.kind == 'c' or all_shift:
+            out_modes.append('out-is-arr')
+        omode = out_modes[int(rng.integers(0, len(out_modes)))]
+        cfg = 'pre;%dd;%d-axes;axes=%s;%s;%s;out=%s' % (nd, k, spelling, dt.name, 'all-shifted' if all_shift else 'some-unshifted', omode)
+        ctx.case('prepost;' + cfg, sign)
+        ctx.ev('phase-factors')
+        try:
+            if omode == 'none':
+                res = dft_preprocess_data(arr, shift=sh_arg, axes=ax_arg, sign=sign)
+                want_dt = dt if (dt.kind == 'c' or all_shift) else cdt
+                if res.dtype != want_dt:
+                    ctx.violation('dft_preprocess_data', cfg, 'dtype', got=str(res.dtype), want=str(want_dt))
+                if np.shares_memory(res, arr):
+                    ctx.violation('dft_preprocess_data', cfg, 'result-shares-memory-with-input')
+            elif omode == 'separate-complex':
+                o = np.full(shape, np.nan, dtype=cdt)
+                res = dft_preprocess_data(arr, shift=sh_arg, axes=ax_arg, sign=sign, out=o)
+                if res is not o:
+                    ctx.violation('dft_preprocess_data', cfg, 'out-not-returned')
+            else:
+                res = dft_preprocess_data(arr, shift=sh_arg, axes=ax_arg, sign=sign, out=arr)
+                if res is not arr:
+                    ctx.violation('dft_preprocess_data', cfg, 'out-not-returned')
+            if omode != 'out-is-arr' and not np.array_equal(arr, arr0):
+                ctx.violation('dft_preprocess_data', cfg, 'input-modified')
+            err = np.abs(np.asarray(res) - model).max()
+            if not err <= tol * max(1.0, np.abs(model).max()):
+                ctx.violation('dft_preprocess_data', cfg, 'value!=docstring-formula', err=float(err), shape=shape, axes=axes, shift=shift, sign=sign)
+        except Exception as e:
+            ctx.violation('dft_preprocess_data', cfg, 'raises:' + type(e).__name__, message=str(e)[:200], shape=shape, axes=axes, shift=shift)
+        # ---- post-processing
+        interp = ['nearest', 'linear'][int(rng.integers(0, 2))]
+        op = ['multiply', 'divide'][int(rng.integers(0, 2))]
+        rshape = tuple(rg.shape)
+        real_in = dt.kind == 'f' and rng.random() < 0.3
+        if real_in:
+            arr = rng.normal(size=rshape).astype(dt)
+        else:
+            arr = (rng.normal(size=rshape) + 1j * rng.normal(size=rshape)).astype(cdt)
+        arr0 = arr.copy()
+        model = arr.astype(np.complex128)
+        for ax in axes:
+            xi = rg.coord_vectors[ax]
+            sax = g.stride[ax]
+            ker = np.sinc(xi * sax / (2 * np.pi)) ** (1 if interp == 'nearest' else 2) / np.sqrt(2 * np.pi) * sax
+            fac = np.exp(sgn * 1j * g.min_pt[ax] * xi) * (ker if op == 'multiply' else 1.0 / ker)
+            model = model * fac.reshape(bshape(ax, rshape[ax]))
+        out_modes = ['none', 'separate'] + ([] if real_in else ['out-is-arr'])
+        omode = out_modes[int(rng.integers(0, len(out_modes)))]
+        cfg = 'post;%dd;%d-axes;axes=%s;%s;%s;%s;%s;out=%s' % (nd, k, spelling, 'real-input' if real_in else cdt.name, 'hc' if hc else 'full', interp, op, omode)
+        ctx.case('prepost;' + cfg, sign)
+        ctx.ev('phase-factors')
+        try:
+            kw = dict(shift=sh_arg, axes=ax_arg, interp=interp, sign=sign, op=op)
+            if omode == 'none':
+                res = dft_postprocess_data(arr, g, rg, **kw)
+                if res.dtype != cdt:
+                    ctx.violation('dft_postprocess_data', cfg, 'dtype', got=str(res.dtype), want=str(cdt))
+                if np.shares_memory(res, arr):
+                    ctx.violation('dft_postprocess_data', cfg, 'result-shares-memory-with-input')
+            elif omode == 'separate':
+                o = np.full(rshape, np.nan, dtype=cdt)
+                res = dft_postprocess_data(arr, g, rg, out=o, **kw)
+                if res is not o:
+                    ctx.violation('dft_postprocess_data', cfg, 'out-not-returned')
+            else:
+                res = dft_postprocess_data(arr, g, rg, out=arr, **kw)
+                if res is not arr:
+                    ctx.violation('dft_postprocess_data', cfg, 'out-not-returned')
+            if omode != 'out-is-arr' and not np.array_equal(arr, arr0):
+                ctx.violation('dft_postprocess_data', cfg, 'input-modified')
+            err = np.abs(np.asarray(res) - model).max()
+            if not err <= (2e-5 if cdt == np.dtype('complex64') else 1e-11) * max(1.0, np.abs(model).max()):
+                ctx.violation('dft_postprocess_data', cfg, 'value!=docstring-formula', err=float(err), shape=shape, axes=axes, shift=shift, sign=sign)
+        except Exception as e:
+            ctx.violation('dft_postprocess_data', cfg, 'raises:' + type(e).__name__, message=str(e)[:200], shape=shape, axes=axes, shift=shift)
+
+
 def _odd_at_some_level(n, nlev):
     for _ in range(nlev):
         if n % 2:
@@ -621,6 +804,8 @@ def run(ctx):
     cov.arm()
     run_planning(ctx)      # first, while the process has no FFTW wisdom yet
     run_plan_history(ctx)
+    run_grids(ctx)
+    run_prepost(ctx)
     run_dft(ctx)
     run_ft(ctx)
     run_wavelets(ctx)
@@ -631,5 +816,5 @@ def run(ctx):
     ctx.note('line_coverage', {'executable': n_exec, 'hit': n_hit})
     for u in unreached:
         ctx.note_set('unreached_lines', u)
-    for m in ('dft-vs-numpy', 'dft-inverse', 'backends-agree', 'ft-quadrature', 'ft-inverse', 'wavelet-vs-pywt'):
+    for m in ('grid-roundtrip', 'phase-factors', 'dft-vs-numpy', 'dft-inverse', 'backends-agree', 'ft-quadrature', 'ft-inverse', 'wavelet-vs-pywt'):
         ctx.ev(m, 0)
